@@ -1362,6 +1362,74 @@ def _sc_neg(ex, F, vals, line):
     return mk_abstract(ex, F, -o.ghost["scalar"], like=o)
 
 
+# ---- the same in the legacy affine class (keys built over ellipticcurve.Point take the `else` branches of sign / verifies) --
+def is_abstract_legacy(o):
+    return isinstance(o, SObj) and "scalar" in o.ghost and o.cls.qual.endswith(".Point")
+
+
+def mk_abstract_legacy(ex, F, scalar, curve, order):
+    s = sp.sympify(scalar)
+    o = SObj(ex.convert(real_ec().Point), {"_Point__curve": curve, "_Point__order": order})
+    o.ghost["scalar"] = s
+    # affine coordinates are stored fields in this class: the same atoms PointJacobi.x() / y() yield for that residue
+    o.fields["_Point__x"] = xcoord_atom(ex, F, s, "x")
+    o.fields["_Point__y"] = xcoord_atom(ex, F, s, "y")
+    return o
+
+
+def legacy_from_scalar(ex, F, s, like):
+    if F.decide_zero(s):
+        return infinity(ex)
+    return mk_abstract_legacy(ex, F, s, like.fields["_Point__curve"], like.fields["_Point__order"])
+
+
+def _lsc_scalar(ex, o):
+    return sp.Integer(0) if o is infinity(ex) else o.ghost["scalar"]
+
+
+def _lsc_mul(ex, F, vals, line):
+    o, k = vals["self"], vals["other"]
+    if o is infinity(ex):
+        return o
+    k = k if isinstance(k, FInt) else (F.const(k) if isinstance(k, int) else F.opaque(ex, k))
+    return legacy_from_scalar(ex, F, o.ghost["scalar"] * k.res, o)
+
+
+def _lsc_add(ex, F, vals, line):
+    o, other = vals["self"], vals["other"]
+    if not (other is infinity(ex) or is_abstract_legacy(other)):
+        return NOTIMPL
+    like = o if is_abstract_legacy(o) else other
+    return legacy_from_scalar(ex, F, _lsc_scalar(ex, o) + _lsc_scalar(ex, other), like)
+
+
+def _lsc_eq(ex, F, vals, line):
+    o, other = vals["self"], vals["other"]
+    if not (other is infinity(ex) or is_abstract_legacy(other)):
+        return NOTIMPL
+    return F.decide_zero(_lsc_scalar(ex, o) - _lsc_scalar(ex, other))
+
+
+def _lsc_double(ex, F, vals, line):
+    o = vals["self"]
+    return o if o is infinity(ex) else legacy_from_scalar(ex, F, 2 * o.ghost["scalar"], o)
+
+
+def _lsc_neg(ex, F, vals, line):
+    o = vals["self"]
+    return o if o is infinity(ex) else legacy_from_scalar(ex, F, -o.ghost["scalar"], o)
+
+
+LEGACY_SCALAR_APPLY = {"__mul__": _lsc_mul, "__add__": _lsc_add, "__eq__": _lsc_eq, "double": _lsc_double, "__neg__": _lsc_neg}
+
+
+def legacy_scalar_applicable(ex, vals):
+    o, other = vals.get("self"), vals.get("other")
+    if is_abstract_legacy(o):
+        return True
+    return o is infinity(ex) and (is_abstract_legacy(other) or getattr(getattr(ex, "field", None), "legacy_world", False))
+
+
 SCALAR_APPLY = {"__mul__": _sc_mul, "mul_add": _sc_mul_add, "__add__": _sc_add, "x": _sc_coord("x"), "y": _sc_coord("y"),
                 "__eq__": _sc_eq, "scale": _sc_self, "__neg__": _sc_neg}
 
@@ -1374,6 +1442,8 @@ def _apply_dispatch(self, ex, vals, line):
     name = self.qual.split(".")[-1]
     if F is not None and is_abstract(o) and name in SCALAR_APPLY and "PointJacobi" in self.qual:
         return SCALAR_APPLY[name](ex, F, vals, line)
+    if F is not None and self.qual.startswith(EC_MOD + "Point.") and name in LEGACY_SCALAR_APPLY and legacy_scalar_applicable(ex, vals):
+        return LEGACY_SCALAR_APPLY[name](ex, F, vals, line)
     return _old_apply(self, ex, vals, line)
 
 
